@@ -428,9 +428,8 @@ fn special_forcing_pass(ctx: &Ctx) {
                 }
                 for u in accepted.iter() {
                     let ub = trie.token(*u);
-                    let consistent = if *u == eos {
-                        false
-                    } else if ub.first() == Some(&0xFF) {
+                    // (end-of-sequence is acceptable only as a token the grammar names here, spelled like any special)
+                    let consistent = if ub.first() == Some(&0xFF) {
                         let mut spelled = vec![0xFFu8];
                         spelled.extend_from_slice(format!("[{u}]").as_bytes());
                         f_bytes.starts_with(&spelled)
